@@ -280,7 +280,7 @@ func run(e *core.Env) {
 	if core.Tier() == "thorough" {
 		nAttempts = 40 + tp.Intn(60)
 	}
-	kinds := []string{"flip", "flip", "flip", "truncate", "drop", "dup", "swap", "replay_old", "reflect", "forge", "eof", "ioerr", "length", "none"}
+	kinds := []string{"flip", "flip", "flip", "truncate", "cut_framed", "cut_framed", "drop", "dup", "swap", "replay_old", "reflect", "forge", "eof", "ioerr", "length", "none"}
 	for k := 0; k < nAttempts; k++ {
 		e.Step()
 		// Reconnects are spaced like the shipped connect manager spaces them (>= 1 s) - except
@@ -386,6 +386,28 @@ func run(e *core.Env) {
 				what = fmt.Sprintf("truncate record %d to %d bytes", idx, cut)
 				e.Fault("truncate")
 				w.cn.Deliver(r)
+			case "cut_framed":
+				// The message arrives cut short (or as noise of that size) but as a complete record -
+				// the length prefix says what is there - and the genuine message follows right
+				// behind it: a router that reads on past a handshake message it cannot use has
+				// not aborted.
+				body := append([]byte(nil), r.Data[2:]...)
+				switch tp.Intn(3) {
+				case 0:
+					body = body[:len(body)-1-tp.Intn(min(len(body)-1, 80))]
+				case 1:
+					body = body[:tp.Intn(len(body))]
+				default:
+					body = tp.Bytes(1 + tp.Intn(len(body)))
+				}
+				rec := make([]byte, 2+len(body))
+				m.PutUint16(rec[:2], uint16(len(rec)))
+				copy(rec[2:], body)
+				w.cn.DeliverBytes(victimEnd(att, victimDir), rec, false)
+				w.cn.Deliver(r)
+				what = fmt.Sprintf("record %d cut to %d bytes in a record of its own, then the genuine record", idx, len(body))
+				e.Fault("truncate")
+				e.Probe("cut_message_in_a_record_of_its_own_then_the_genuine_one")
 			case "drop":
 				w.cn.Remove(r)
 				what = fmt.Sprintf("drop record %d", idx)
